@@ -346,7 +346,14 @@ func Run(sc Scenario) (res *Result, err error) {
 				case OpExitParent:
 					r := fmt.Errorf("exit-parent-%d-%d", i, j)
 					addCause(Cause{Kind: OpExitParent, Reason: r})
-					node.Send(par, kit.Do{F: func(a *kit.Actor) { a.SendExit(recv, r) }})
+					// wait until the signal has really been issued (the helper runs asynchronously)
+					d := make(chan struct{})
+					if node.Send(par, kit.Do{F: func(a *kit.Actor) { a.SendExit(recv, r) }, Done: d}) == nil {
+						select {
+						case <-d:
+						case <-time.After(10 * time.Second):
+						}
+					}
 				case OpExitOther:
 					r := fmt.Errorf("exit-other-%d-%d", i, j)
 					if sc.Kind != KindActorTrap {
@@ -354,7 +361,13 @@ func Run(sc Scenario) (res *Result, err error) {
 					}
 					c, err := node.Spawn(quiet("exiter"), gen.ProcessOptions{})
 					if err == nil {
-						node.Send(c, kit.Do{F: func(a *kit.Actor) { a.SendExit(recv, r) }})
+						d := make(chan struct{})
+						if node.Send(c, kit.Do{F: func(a *kit.Actor) { a.SendExit(recv, r) }, Done: d}) == nil {
+							select {
+							case <-d:
+							case <-time.After(10 * time.Second):
+							}
+						}
 					}
 				case OpKill:
 					addCause(Cause{Kind: OpKill, Reason: gen.TerminateReasonKill})
@@ -420,14 +433,16 @@ func Run(sc Scenario) (res *Result, err error) {
 		_, err := node.ProcessInfo(recv)
 		return err != nil
 	}
-	time.Sleep(3 * time.Millisecond)
-	kit.WaitUntil(1500*time.Millisecond, func() bool {
-		return gone() || kit.Quiesced(node, recv)
-	})
-	time.Sleep(2 * time.Millisecond)
-	kit.WaitUntil(500*time.Millisecond, func() bool {
-		return gone() || kit.Quiesced(node, recv)
-	})
+	time.Sleep(time.Millisecond)
+	if !kit.WaitUntil(10*time.Second, func() bool { return gone() || kit.Quiesced(node, recv) }) {
+		if stuck, w := kit.Stuck(node, recv); stuck {
+			return res, fmt.Errorf("receiver stuck: %s", w)
+		}
+		res.Inconclusive = "receiver neither terminated nor quiesced within 10 s"
+		return res, nil
+	}
+	time.Sleep(time.Millisecond)
+	kit.WaitUntil(10*time.Second, func() bool { return gone() || kit.Quiesced(node, recv) })
 	res.Terminated = gone()
 	if !res.Terminated {
 		if stuck, w := kit.Stuck(node, recv); stuck {
@@ -435,19 +450,18 @@ func Run(sc Scenario) (res *Result, err error) {
 			return res, fmt.Errorf("receiver stuck: %s", w)
 		}
 	}
-	// give terminate callback / observers time to finish
-	kit.WaitUntil(300*time.Millisecond, func() bool {
-		if !res.Terminated {
-			return true
+	// the terminate callback follows unregisterProcess; the observers' notifications were
+	// queued before it and are handled asynchronously: wait on states, not on time
+	if res.Terminated {
+		if !kit.WaitUntil(10*time.Second, func() bool { return probe.Terminated("recv", recv) }) {
+			res.Inconclusive = "terminate callback did not complete within 10 s"
 		}
-		for _, e := range probe.EventsOf("recv") {
-			if e.Kind == "terminate" {
-				return true
-			}
-		}
-		return false
-	})
-	time.Sleep(2 * time.Millisecond)
+	}
+	for _, o := range []gen.PID{obsL, obsM} {
+		o := o
+		kit.WaitUntil(5*time.Second, func() bool { return kit.Quiesced(node, o) })
+	}
+	time.Sleep(time.Millisecond)
 	res.RecvEvents = probe.EventsOf("recv")
 	omu.Lock()
 	res.LinkSeen = append([]error(nil), linkSeen...)
